@@ -1,38 +1,61 @@
 """Texts for MANIFEST.json (level claimed, trusted base, technique) per property."""
+from . import registry
 
-TECH_ABS = "finite-domain abstract interpretation of the function ASTs (decision-table extraction)"
 NOTE = (
-    "Trusted: Python grammar / stdlib ast; class-hierarchy call resolution restricted to "
-    "src/finam; the checker's stated models (DESIGN.md section 4); numpy/pint/scipy semantics "
-    "where named. Decides structural necessary conditions (clauses), not the behaviour as a whole."
+    "Trusted base: Python grammar / stdlib ast; class-hierarchy call resolution restricted to classes in src/finam; the "
+    "checker's stated models and reference semantics (DESIGN.md section 4 and 9); numpy/pint/scipy semantics where a rule names "
+    "them. The check decides structural clauses that are necessary conditions of the property, not the behaviour as a whole; "
+    "what is not decided is stated in the claim text. finam is never imported or executed."
 )
 
-CLAIMS = {
-    "C01": {
-        "text": "Static, clause level: every in-repo time component pulls at its announced time (R01); "
-                "the scheduler's dependency walk demands from each source exactly the time the data path "
-                "requests, for all chains of adapter kinds up to the bound (R02); the extracted decision "
-                "table of one scheduling step updates a component only when no transitive dependency lags "
-                "(R03/R09). Not decided: truthful third-party components, positive steps, numeric entry selection.",
-        "design_ref": "DESIGN.md 4/C01",
-        "note": NOTE,
-        "technique": TECH_ABS + " over adapter-kind chains and small topologies; def-use on pull sites",
-    },
+T_CFG = "statement-CFG dominance / post-dominance"
+T_ABS = "finite-domain abstract interpretation of the function ASTs (decision-table extraction, no concrete values, no solver)"
+T_DF = "def-use / tag dataflow with per-function summaries"
+T_NF = "syntactic rational-function normal forms"
+T_CHA = "class-hierarchy (MRO) call resolution, who-may-call"
+
+TECH = {
+    "C01": f"{T_ABS} over adapter-kind chains, small topologies and order types; {T_DF} on pull sites",
+    "C02": f"{T_ABS} of the dependency walk and scheduling step; {T_CFG} and accepted-idiom matching on the run loop",
+    "C03": f"{T_CFG} over the life cycle; typestate-table comparison (wrappers / hooks / driver); {T_CHA}",
+    "C04": f"{T_ABS} of the scheduling step over cyclic topologies and of the connect loop over scripted statuses; {T_CFG}",
+    "C06": f"{T_ABS} of ConnectHelper against scripted peers; {T_CFG} (no store before a possible FinamNoDataError); handler-type lint",
+    "C07": f"{T_ABS} of Info.accepts / masks_compatible decision tables; {T_CFG} and {T_DF} on the metadata exchange path",
+    "C08": f"{T_ABS} of Output.get_data over order types; {T_CFG} stage ordering; tag dataflow (time axis); layout algebra",
+    "C09": f"{T_ABS} of eviction over order types and consumer sets; link-element-kind table from {T_CHA} and {T_DF}",
+    "C10": f"packed/unpacked typestate ({T_DF}); pairing and call-graph reachability of file removal; writer/reader agreement; {T_CFG}",
+    "C11": f"{T_ABS} of the interpolation adapters over order types with {T_NF}",
+    "C12": f"{T_ABS} of the integration adapters over order types; equality with the exact integral by {T_NF}",
+    "C13": f"{T_ABS} of the delay protocol and clamp decision tables; walk/data-path agreement",
+    "C14": f"memo-invalidation dataflow through property getters ({T_CHA}); sibling agreement; index-space typing",
+    "C15": f"layout algebra ({T_ABS} over all axis orders and directions); tag dataflow for the time axis",
+    "C16": f"writer/reader and coordinate/data pairing on resolved attributes; {T_DF}; term mirroring of compress/expand",
+    "C17": f"{T_ABS} of the unit predicates against a scripted unit relation",
+    "C18": f"{T_ABS} of the mask decision table; term mirroring of compress/expand",
+    "C19": f"{T_ABS} of composition validation over enumerated topologies",
+    "C20": f"{T_ABS} of static slots, pull-based outputs and the scheduling step; freshness dataflow",
 }
 
-PENDING = "check not built yet in this revision of /verif (see DESIGN.md section 5 for the plan)"
+CLAIMS = {}
+for _pid, _spec in registry.PROPS.items():
+    CLAIMS[_pid] = {
+        "text": _spec["explanation"],
+        "design_ref": f"DESIGN.md section 4/{_pid} and section 9",
+        "note": NOTE,
+        "technique": TECH[_pid],
+    }
+
 NOT_APPLICABLE = [
     {"property_id": "C05",
-     "reason": "relation between whole executions under permutations of the input; no clause of it is a fact "
-               "about the shape of the code (its anchored mechanisms are decided under C06/R13 and C02/R05)"},
+     "reason": "relation between whole executions under permutations of component and link order; no clause of it is a fact about "
+               "the shape of the code. Its anchored mechanisms are decided where they are necessary conditions in their own right "
+               "(failed exchanges side-effect free: C06/R13; selection by least time only: C02/R05) but neither is sufficient nor "
+               "individually necessary for permutation equivalence, so claiming C05 through them would be a proxy."},
 ]
-for _p in ["C02", "C03", "C04", "C06", "C07", "C08", "C09", "C10", "C11", "C12", "C13", "C14", "C15",
-           "C16", "C17", "C18", "C19", "C20"]:
-    if _p not in CLAIMS:
-        NOT_APPLICABLE.append({"property_id": _p, "reason": PENDING})
 
 NOTES = (
-    "Static analysis only: no check imports or runs finam. Exit 0 = all obligations discharged (or only "
-    "listed known findings), 1 = unlisted violation with a VIOLATION line, 2 = analysis error "
-    "(unrecognised shape / floor not met), printed as ANALYSIS-ERROR."
+    "Static analysis only: no check imports or runs finam. Exit 0 = all obligations discharged (or only listed known findings), "
+    "1 = unlisted violation with a VIOLATION line, 2 = analysis error (unrecognised shape / floor not met / condition outside the "
+    "abstract domain), printed as ANALYSIS-ERROR. 14 genuine defects found by the rules were repaired in /repo by separate 'fix:' "
+    "commits and are recorded as fixed in known_findings.json; there are no open known findings."
 )
